@@ -399,6 +399,8 @@ func (cs *clientStream) doHttpCall(transport http.RoundTripper, req *http.Reques
 			// the response ended before its trailer frame: it was cut short
 			rErr = io.ErrUnexpectedEOF
 		}
+		// a read that failed because the context ended must surface as a status
+		rErr = statusFromContextError(rErr)
 		if rErr != nil && cs.rErr == nil {
 			cs.rErr = rErr
 		}
@@ -466,6 +468,7 @@ func (cs *clientStream) doHttpCall(transport http.RoundTripper, req *http.Reques
 				if cs.rErr == io.EOF {
 					cs.rErr = io.ErrUnexpectedEOF
 				}
+				cs.rErr = statusFromContextError(cs.rErr)
 			}
 			if len(cs.tr.Metadata) > 0 && len(cs.copts.Trailers) > 0 {
 				cs.copts.SetTrailers(metadataFromProto(cs.tr.Metadata))
